@@ -476,3 +476,77 @@ Definition same_set (a b : list nat) : bool :=
   (length a =? length b)%nat && forallb (fun x => mem x b) a && forallb (fun x => mem x a) b.
 Definition row_agree (model : option (list nat)) (impl : list nat) : bool :=
   match model with Some l => same_set l impl | None => false end.
+
+(* ---------------------------------------------------------------------------
+   The decision points of _nns_from_nodes_to_nodes.calc_frm as a configuration
+   (re-translated from /repo on every run into gen/KnnCfg.v): which comparison
+   prunes a popped node against the k-th best / the bound, how they are joined,
+   whether empty children are skipped, which comparison drops a leaf point, and
+   how the result heap is updated.  `search_cfg` is `search` with those
+   decisions read from the configuration. *)
+Inductive cmp := Gt | Ge | Lt | Le | EqC | NeC.
+Definition cmp_eval (c : cmp) (a b : D) : bool :=
+  match c with
+  | Gt => Dltb b a | Ge => Dleb b a | Lt => Dltb a b | Le => Dleb a b
+  | EqC => Deqb a b | NeC => negb (Deqb a b)
+  end.
+Inductive heap_upd := PushPop | PushOnly.
+Record kcfg := {
+  kth_cmp : cmp;          (* `d > -res_q[0][0]`  : d  kth_cmp  kth      -> prune *)
+  bound_cmp : cmp;        (* `d > distance_upper_bound`                 -> prune *)
+  join_or : bool;         (* the two tests are joined by `or` *)
+  skip_empty : bool;      (* `if idx[to + 1] - idx[to] == 0: continue` present *)
+  leaf_cmp : cmp;         (* leaf: `if d > distance_upper_bound: continue` *)
+  leaf_upd : heap_upd     (* heapq.heappushpop(res_q, (-d, id)) *)
+}.
+Definition cfg_code : kcfg :=
+  {| kth_cmp := Gt; bound_cmp := Gt; join_or := true; skip_empty := true;
+     leaf_cmp := Gt; leaf_upd := PushPop |}.
+Definition cmp_eqb (a b : cmp) : bool :=
+  match a, b with
+  | Gt, Gt | Ge, Ge | Lt, Lt | Le, Le | EqC, EqC | NeC, NeC => true
+  | _, _ => false
+  end.
+(* the configurations for which the search is proved to equal brute force:
+   the k-th test may be strict or not (that only moves the choice among
+   equidistant targets), everything else must be as in cfg_code *)
+Definition cfg_ok (c : kcfg) : bool :=
+  (cmp_eqb (kth_cmp c) Gt || cmp_eqb (kth_cmp c) Ge) && cmp_eqb (bound_cmp c) Gt && join_or c &&
+  cmp_eqb (leaf_cmp c) Gt && match leaf_upd c with PushPop => true | PushOnly => false end.
+
+Section SearchCfg.
+  Variable cfg : kcfg.
+  Variable pick : queue -> option ((Z * tree) * queue).
+  Variables (k : nat) (bound : D) (q : P).
+
+  Definition leaf_step_cfg (res : list entry) (ip : Z * P) : list entry :=
+    let d := Fin (d2 q (snd ip)) in
+    if cmp_eval (leaf_cmp cfg) d bound then res
+    else match leaf_upd cfg with
+         | PushPop => insert_trunc k (d, fst ip) res
+         | PushOnly => insert pleb (d, fst ip) res
+         end.
+  Definition push_children_cfg (cs : list tree) (rest : queue) : queue :=
+    map (fun c => (lb2 q (box_of c), c)) (if skip_empty cfg then filter nonempty cs else cs) ++ rest.
+  Definition prune_cfg (res : list entry) (d : Z) : bool :=
+    let a := cmp_eval (kth_cmp cfg) (Fin d) (kth res) in
+    let b := cmp_eval (bound_cmp cfg) (Fin d) bound in
+    if join_or cfg then a || b else a && b.
+
+  Fixpoint search_cfg (fuel : nat) (que : queue) (res : list entry) : option (list entry) :=
+    match fuel with
+    | O => None
+    | S f =>
+        match pick que with
+        | None => Some res
+        | Some ((d, t), rest) =>
+            if prune_cfg res d then search_cfg f rest res
+            else match t with
+                 | Node _ cs => search_cfg f (push_children_cfg cs rest) res
+                 | Leaf _ pts => search_cfg f rest (fold_left leaf_step_cfg pts res)
+                 end
+        end
+    end.
+End SearchCfg.
+Definition knn_cfg cfg pick (fuel k : nat) (bound : D) (q : P) (t : tree) : option (list entry) :=
+  search_cfg cfg pick k bound q fuel [(0, t)] (repeat pad k).
